@@ -137,7 +137,7 @@ HARNESSES.append(
     dict(name="p3dirs", src="p3dirs.c",
          funcs=["check_directory"],
          cut_statics={"e2fsck/pass3.c": ["e2fsck_reconnect_file", "fix_dotdot"]},
-         configs=[{"ANSWER": 0}],
+         configs=[{"ANSWER": 0}, {"ANSWER": 0, "LOOPCHECK": None}],
          unwind=4, unwindset=P3_UW,
          backends=["default", "kissat"],
          bound="table of 6 directories (root, lost+found, 4 more): parent (none or any table directory), '..' (any 32-bit value) and inode_dir_map "
